@@ -29,13 +29,13 @@ struct RustSide {
     token: Biscuit,
 }
 
-fn rust_side(alg: &str) -> RustSide {
+fn rust_side(alg: &str, balg: &str) -> RustSide {
     let kp = KeyPair::new_with_rng(ralg(alg), &mut StdRng::from_seed(SEED1));
     let token0 = Biscuit::builder()
         .fact("right(\"file1\")").unwrap()
         .context("ctx0".to_string())
         .build_with_rng(&kp, SymbolTable::default(), &mut StdRng::from_seed(SEED2)).unwrap();
-    let kp2 = KeyPair::new_with_rng(Algorithm::Ed25519, &mut StdRng::from_seed(SEED3));
+    let kp2 = KeyPair::new_with_rng(ralg(balg), &mut StdRng::from_seed(SEED3));
     let token = token0.append_with_keypair(&kp2, BlockBuilder::new().check("check if right(\"file1\")").unwrap()).unwrap();
     RustSide { kp, token0, token }
 }
@@ -52,7 +52,8 @@ unsafe fn cstr(p: *const std::os::raw::c_char) -> Option<String> {
 pub fn cmd_child(arg: &str) {
     let sc: Value = serde_json::from_str(arg).unwrap();
     let alg = sc["alg"].as_str().unwrap();
-    let rs = rust_side(alg);
+    let balg = sc["balg"].as_str().unwrap_or("ed");
+    let rs = rust_side(alg, balg);
     unsafe {
         let kp = c::key_pair_new(SEED1.as_ptr(), 32, calg(alg)).expect("key_pair_new");
         let pubk = c::key_pair_public(Some(&kp)).expect("key_pair_public");
@@ -65,7 +66,7 @@ pub fn cmd_child(arg: &str) {
         let mut blk = c::create_block();
         let chk = CString::new("check if right(\"file1\")").unwrap();
         assert!(c::block_builder_add_check(Some(&mut blk), chk.as_ptr()));
-        let kp2 = c::key_pair_new(SEED3.as_ptr(), 32, c::SignatureAlgorithm::Ed25519).expect("kp2");
+        let kp2 = c::key_pair_new(SEED3.as_ptr(), 32, calg(balg)).expect("kp2");
         let token = c::biscuit_append_block(Some(&token0), Some(&blk), Some(&kp2)).expect("append");
         println!("{}", json!({"setup": "ok", "err": err_kind()}));
         for call in sc["calls"].as_array().unwrap() {
@@ -187,7 +188,7 @@ pub fn cmd_child(arg: &str) {
                     assert!(c::block_builder_add_fact(Some(&mut b3), f3.as_ptr()));
                     match c::biscuit_append_block(th, Some(&b3), Some(&kp2)) {
                         Some(t) => {
-                            let kp2r = KeyPair::new_with_rng(Algorithm::Ed25519, &mut StdRng::from_seed(SEED3));
+                            let kp2r = KeyPair::new_with_rng(ralg(balg), &mut StdRng::from_seed(SEED3));
                             let want = rs.token.append_with_keypair(&kp2r, BlockBuilder::new().fact("extra(1)").unwrap()).unwrap().to_vec().unwrap();
                             let size = c::biscuit_serialized_size(Some(&t));
                             let mut buf = vec![0u8; size];
@@ -217,7 +218,7 @@ pub fn cmd_child(arg: &str) {
             let kind = err_kind();
             let msg = cstr(c::error_message());
             // the C API cannot change the default 1 ms time limit: a Timeout under load is not a finding
-            let timeout = name == "authorize" && msg.as_deref().map(|m| m.contains("imeout")).unwrap_or(false);
+            let timeout = name == "authorize" && (kind == c::ErrorKind::Timeout as u32 || msg.as_deref().map(|m| m.contains("imeout")).unwrap_or(false));
             println!("{}", json!({"name": name, "out": out, "err_kind": kind, "err_msg": msg, "problems": problems, "timeout": timeout}));
         }
     }
@@ -225,7 +226,7 @@ pub fn cmd_child(arg: &str) {
 
 fn replay_case(idx: usize, case: &Value) -> Value {
     let exe = std::env::current_exe().unwrap();
-    let arg = json!({"alg": case["alg"], "calls": case["calls"]}).to_string();
+    let arg = json!({"alg": case["alg"], "balg": case["balg"], "calls": case["calls"]}).to_string();
     let outp = std::process::Command::new(exe).arg("capi-child").arg(&arg).output();
     let mut problems: Vec<String> = Vec::new();
     match outp {
